@@ -147,3 +147,85 @@ Proof.
     cbn [run fold_left]. apply IH. apply leak_free_step. exact L. }
   apply G. intros k [].
 Qed.
+
+(* ------------------------------------------------------------------ *)
+(* Un-management is EFFECTIVE: once the clock has moved by the TTL (or   *)
+(* more) after ANY history whose clock steps are not negative, nothing is *)
+(* pending and every key of the map is an expression of the              *)
+(* configuration in force — exactly its expressions when it does not     *)
+(* manage all.  (A pending job's wake-up time is at most now + TTL.)     *)
+
+Definition nonneg_op (o : op) : Prop := match o with Advance d => 0 <= d | _ => True end.
+
+Definition due_bounded (s : state) : Prop :=
+  forall dj, In dj (s_pend s) -> fst dj <= s_now s + ttl.
+
+Lemma due_bounded_step : forall s o,
+  nonneg_op o -> due_bounded s -> due_bounded (step Recheck s o).
+Proof.
+  intros s o NN B. destruct o as [k c | i | d]; cbn [step].
+  - intros dj H. unfold load in *. destruct k as [|[|]]; cbn [s_pend s_now] in *.
+    + apply in_app_or in H. destruct H as [H|H]; [exact (B dj H)|].
+      destruct (is_nil _); [destruct H|]. destruct H as [<-|[]]. cbn [fst]. lia.
+    + exact (B dj H).
+    + apply in_app_or in H. destruct H as [H|H]; [exact (B dj H)|].
+      apply in_app_or in H. destruct H as [H|H].
+      * destruct (_ && _); [|destruct H]. destruct H as [<-|[]]. cbn [fst]. lia.
+      * destruct (is_nil _); [destruct H|]. destruct H as [<-|[]]. cbn [fst]. lia.
+  - unfold tick. destruct (nth_error (s_pend s) i) as [[due j]|]; [|exact B].
+    intros dj H. cbn [s_pend s_now] in *. apply remove_nth_sub in H. exact (B dj H).
+  - unfold advance. cbn [nonneg_op] in NN.
+    pose proof (fire_due_sub Recheck (s_cur s) (s_now s + d) (s_pend s) (s_px s)) as S.
+    destruct (fire_due Recheck (s_cur s) (s_now s + d) (s_pend s) (s_px s)) as [p pend].
+    cbn [snd] in S. intros dj H. cbn [s_pend s_now] in *. specialize (B dj (S dj H)). lia.
+Qed.
+
+Lemma due_bounded_run : forall ops s,
+  Forall nonneg_op ops -> due_bounded s -> due_bounded (run Recheck ops s).
+Proof.
+  induction ops as [|o ops IH]; intros s F B; [exact B|].
+  inversion F as [|o' ops' NN F']; subst. cbn [run fold_left]. apply IH; [exact F'|].
+  apply due_bounded_step; assumption.
+Qed.
+
+Lemma fire_due_all : forall v cur now pend p,
+  (forall dj, In dj pend -> fst dj <= now) -> snd (fire_due v cur now pend p) = [].
+Proof.
+  intros v cur now pend. induction pend as [|[due j] rest IH]; intros p H; cbn [fire_due];
+    [reflexivity|].
+  assert (E : (due <=? now) = true).
+  { apply Z.leb_le. apply (H (due, j)). left. reflexivity. }
+  rewrite E. apply IH. intros dj Hd. apply H. right. exact Hd.
+Qed.
+
+Lemma run_app : forall v a b s, run v (a ++ b) s = run v b (run v a s).
+Proof. intros v a b s. unfold run. apply fold_left_app. Qed.
+
+Theorem drained_after_ttl : forall ops d,
+  Forall nonneg_op ops -> ttl <= d ->
+  let s := run Recheck (ops ++ [Advance d]) init in
+  s_pend s = [] /\
+  (forall k, In k (p_map (s_px s)) -> In k (cur_eps (s_cur s))) /\
+  (forall c, s_cur s = Some c -> q_all c = false ->
+             forall k, In k (p_map (s_px s)) <-> In k (q_eps c)).
+Proof.
+  intros ops d F D s.
+  assert (P : s_pend s = []).
+  { unfold s. rewrite run_app. cbn [run fold_left step]. unfold advance.
+    set (s0 := run Recheck ops init).
+    assert (B : due_bounded s0).
+    { apply due_bounded_run; [exact F|]. intros dj []. }
+    pose proof (fire_due_all Recheck (s_cur s0) (s_now s0 + d) (s_pend s0) (s_px s0)) as A.
+    destruct (fire_due Recheck (s_cur s0) (s_now s0 + d) (s_pend s0) (s_px s0)) as [p pend].
+    cbn [snd s_pend] in *. apply A. intros dj H. specialize (B dj H). lia. }
+  assert (L : forall k, In k (p_map (s_px s)) -> In k (cur_eps (s_cur s))).
+  { intros k Hk.
+    pose proof (proj1 (no_leak_spec s) (no_leak_after_reloads (ops ++ [Advance d]))) as LF.
+    destruct (LF k Hk) as [A|A]; [exact A|]. rewrite P in A. destruct A. }
+  split; [exact P|]. split; [exact L|].
+  intros c E Q k. split.
+  - intro Hk. specialize (L k Hk). rewrite E in L. exact L.
+  - intro Hk. pose proof (managed_after_reloads (ops ++ [Advance d])) as M.
+    fold s in M. unfold managed_ok in M. rewrite E in M. apply covers_spec in M.
+    rewrite Q in M. exact (M k Hk).
+Qed.
